@@ -32,8 +32,15 @@ pub trait Show: Entry {
     fn show(&self) -> String;
 }
 
+/// entries whose root segment joined with the relative segment is not the entry's path, compared as OS paths (not as the
+/// lossy text the items are printed in)
+static JOIN_FAILS: AtomicUsize = AtomicUsize::new(0);
+
 fn show_common(e: &dyn Entry) -> String {
     let (root, rel) = e.root_relative_paths();
+    if root.join(rel) != e.path() {
+        JOIN_FAILS.fetch_add(1, Ordering::SeqCst);
+    }
     let ft = e.file_type();
     format!(
         "ok:{}:{}:{}:{}:{}",
@@ -351,6 +358,16 @@ pub fn walk_cmd(args: &[&str]) -> String {
         }
         let mut it = item.split(':');
         let k = it.next().unwrap();
+        if k == "b" {
+            // a file whose path is given as BYTES: every character below U+0100 stands for that single byte, so that names
+            // which are not UTF-8 can be written (`caf\u{e9}` is the Latin-1 spelling, four bytes)
+            use std::os::unix::ffi::OsStrExt;
+            let bytes: Vec<u8> = unhex(it.next().unwrap()).chars().map(|c| c as u32 as u8).collect();
+            let p = root.join(std::ffi::OsStr::from_bytes(&bytes));
+            fs::create_dir_all(p.parent().unwrap()).unwrap();
+            fs::write(&p, "").unwrap();
+            continue;
+        }
         if k == "x" {
             let p = xdev.as_ref().unwrap().join(unhex(it.next().unwrap()));
             fs::create_dir_all(p.parent().unwrap()).unwrap();
@@ -479,7 +496,12 @@ pub fn walk_cmd(args: &[&str]) -> String {
     restore_permissions(&root);
     let _ = fs::remove_dir_all(&tmp);
     let join = |v: &Vec<String>| if v.is_empty() { "-".to_string() } else { v.join(";") };
-    let lower = lower.map(|n| format!(" lower={}", n)).unwrap_or_default();
+    let mut lower = lower.map(|n| format!(" lower={}", n)).unwrap_or_default();
+    // entries whose segments do not join to their path AS OS PATHS (only mentioned when there are any)
+    let jf = JOIN_FAILS.swap(0, Ordering::SeqCst);
+    if jf > 0 {
+        lower.push_str(&format!(" joinfail={}", jf));
+    }
     match result {
         Err(e) => format!("{} root={} rec={}{}", e, hex(&root_str), join(&rec), lower),
         Ok((items, logs)) => format!(
